@@ -319,7 +319,7 @@ def classify(spec, sname, c, model):
     okp = (spec.get("ok_pred") or {}).get(c["cmd"], "exact")
     keyf = spec.get("key")
     key = keyf(c, model) if keyf else "corr_%s_%s" % (spec["id"], c["cmd"])
-    base = {"key": key, "case": {"stage": sname, "case": c["head"], "impl": c["impl"], "model": model}}
+    base = {"key": key, "case": {"stage": sname, "case": c["head"], "impl": c["impl"], "model": model, "tags": c["tags"]}}
     if model.startswith("DRIVER-ERROR"):
         base.update({"concrete": False, "what": "model driver error on %s: %s" % (c["head"][:200], model),
                      "unchecked": "corr_%s_%s" % (spec["id"], c["cmd"])})
